@@ -1275,6 +1275,42 @@ func vScenarios() []vScenario {
 }
 
 // vRunRandomHistory: a few templates, then random steps, on one chain.
+// vOperationalStep: now and then something happens to the node or the
+// network between two transactions that is not a transaction - the node is
+// restarted, or an accepted proposal changes a marketplace parameter.
+func vOperationalStep(h *vHist) {
+	r := h.rng
+	switch {
+	case r.Chance(1, 30):
+		h.Restart()
+		h.res.Count("node_restarts_in_histories", 1)
+	case r.Chance(1, 30) && h.c.open && len(h.pendingHashes) == 0:
+		p := h.c.profile
+		var err error
+		switch r.Intn(3) {
+		case 0:
+			n := p.DepMinDeposit * 2
+			if r.Bool() && p.DepMinDeposit >= 4 {
+				n = p.DepMinDeposit / 2
+			}
+			err = h.Gov(0, dtypes.ModuleName, "DeploymentMinDeposit", fmt.Sprintf(`{"denom":%q,"amount":"%d"}`, vDenom, n))
+		case 1:
+			n := p.BidMinDeposit * 2
+			if r.Bool() && p.BidMinDeposit >= 4 {
+				n = p.BidMinDeposit / 2
+			}
+			err = h.Gov(0, mtypes.ModuleName, "BidMinDeposit", fmt.Sprintf(`{"denom":%q,"amount":"%d"}`, vDenom, n))
+		default:
+			err = h.Gov(0, mtypes.ModuleName, "OrderMaxBids", fmt.Sprintf("%d", []int{1, 2, 3, 20}[r.Intn(4)]))
+		}
+		if err != nil {
+			h.res.Count("parameter_changes_refused", 1)
+		} else {
+			h.res.Count("parameter_changes_in_histories", 1)
+		}
+	}
+}
+
 func vRunRandomHistory(h *vHist, nTemplates, nRandom int, tune func(g *vGen)) {
 	g := vNewGen(h)
 	if tune != nil {
@@ -1305,6 +1341,7 @@ func vRunRandomHistory(h *vHist, nTemplates, nRandom int, tune func(g *vGen)) {
 	}
 	for i := 0; i < nRandom && !h.stopped; i++ {
 		g.Next()
+		vOperationalStep(h)
 	}
 	if g.AtEnd != nil {
 		g.AtEnd(g)
